@@ -138,6 +138,15 @@ def run(ctx: Any) -> None:
     def row_term(code: int, size: int, n: int, ups: list[int]) -> str:
         return f"({cN(code)}, {cN(size)}, {cN(n)}, {clist([cN(u) for u in ups])})"
 
+    def ue_key(repl: dict[str, Any], e: int) -> str:
+        # the class documented by R_C16.C16_refused_before_upload_refuted: logical <= cap < uploaded stream
+        return K_UE if repl["logical"] <= e < repl["uploaded_stream"] else "unary-exchange-upload-exceeds-external-cap-beyond-framing-gap"
+
+    def prod_key(trepl: dict[str, Any], e: int, ups: int) -> str:
+        # the class documented by R_C16.C16_producer_external_*_refuted: the turn passes the cap by at most one framing gap
+        gaps = [u - l for u, l in zip(trepl["uploaded_stream"], trepl["logical"])]
+        return K_PROD if gaps and ups <= e + max(gaps) else "producer-upload-exceeds-external-cap-beyond-framing-gap"
+
     def check_caps_ue(kindname: str, r: dict[str, Any], w: int | None, e: int | None, repl: dict[str, Any]) -> None:
         """The property's own predicate on one real unary / exchange response."""
         ups = sum(r["uploads"])
@@ -150,12 +159,12 @@ def run(ctx: Any) -> None:
             if r["errhdr"] != "true":
                 ctx.violation(f"{kindname}-cap-error-not-flagged", "cap refusal without X-VGI-RPC-Error", repl)
             if e is not None and ups > e:
-                ctx.violation(K_UE, f"external-cap refusal arrived after {ups} bytes (> cap {e}) had been uploaded", {**repl, "uploaded": r["uploads"]})
+                ctx.violation(ue_key(repl, e), f"external-cap refusal arrived after {ups} bytes (> cap {e}) had been uploaded", {**repl, "uploaded": r["uploads"]})
         elif r["kind"] == "wire":
             if r["errhdr"] != "true":
                 ctx.violation(f"{kindname}-cap-error-not-flagged", "cap refusal without X-VGI-RPC-Error", repl)
             if e is not None and ups > e:
-                ctx.violation(K_UE, f"wire-cap refusal arrived after {ups} bytes (> external cap {e}) had been uploaded", {**repl, "uploaded": r["uploads"]})
+                ctx.violation(ue_key(repl, e), f"wire-cap refusal arrived after {ups} bytes (> external cap {e}) had been uploaded", {**repl, "uploaded": r["uploads"]})
         elif r["kind"].startswith("other"):
             ctx.violation(f"{kindname}-unexpected-error", r["kind"], repl)
 
@@ -230,7 +239,8 @@ def run(ctx: Any) -> None:
             L = U = inl = ptr = base = 0
         else:
             L = S.data_batch(n, rows).get_total_buffer_size()
-            inl = _sizes(ra["msgs"], "data") + _sizes(ra["msgs"], "log")
+            # a zero-row data batch carrying the refreshed cursor looks like a token sentinel to the body parser
+            inl = _sizes(ra["msgs"], "data") + _sizes(ra["msgs"], "token") + _sizes(ra["msgs"], "log")
             ptr = _sizes(rb["msgs"], "pointer")
             U = sum(rb["uploads"])
             base = ra["body_len"] - inl
@@ -365,12 +375,12 @@ def run(ctx: Any) -> None:
                 trepl = {**repl, "turn": ti, "turn_uploads": t["uploads"], "turn_kind": t["kind"]}
                 # ---- oracle on the real turn
                 if t["kind"] == "ok" and e is not None and ups > e:
-                    ctx.violation(K_PROD, f"a successful producer turn uploaded {ups} bytes > max_externalized_response_bytes {e}", trepl)
+                    ctx.violation(prod_key(trepl, e, ups), f"a successful producer turn uploaded {ups} bytes > max_externalized_response_bytes {e}", trepl)
                 if t["kind"] == "ext":
                     if t["errhdr"] != "true":
                         ctx.violation("producer-cap-error-not-flagged", "external-cap refusal without X-VGI-RPC-Error", trepl)
                     if e is not None and ups > e:
-                        ctx.violation(K_PROD, f"producer turn refused on the external cap after {ups} bytes > cap {e} had been uploaded", trepl)
+                        ctx.violation(prod_key(trepl, e, ups), f"producer turn refused on the external cap after {ups} bytes > cap {e} had been uploaded", trepl)
                 if t["kind"] == "wire" or t["kind"].startswith("other"):
                     ctx.violation("producer-unexpected-error", t["kind"], trepl)
                 if w is not None and t["kind"] in ("ok", "ext", "user") and flushes >= 2:
